@@ -7,10 +7,12 @@ namespace Fx
 
 structure Rng where
   s : Nat
+  victim : Nat := 0      -- k > 0: the k-th bounded position met gets a length of max + 1 (hostile "over the maximum, bytes present" inputs)
+  hit : Bool := false
 
 def Rng.next (r : Rng) : Nat × Rng :=
   let s := (r.s * 6364136223846793005 + 1442695040888963407) % 2^64
-  (s / 2^33, ⟨s⟩)
+  (s / 2^33, { r with s := s })
 
 def Rng.below (r : Rng) (n : Nat) : Nat × Rng :=
   let (x, r') := r.next
@@ -35,6 +37,9 @@ def genLen (lim : Option Nat) (small : Nat) (r : Rng) : Nat × Rng :=
   let (c, r1) := r.below 8
   match lim with
   | some m =>
+    if r1.victim = 1 then (m + 1, { r1 with victim := 0, hit := true })
+    else
+    let r1 := if r1.victim > 1 then { r1 with victim := r1.victim - 1 } else r1
     if c = 0 then (m, r1)
     else if c = 1 then (0, r1)
     else let (k, r2) := r1.below (min m small + 1); (k, r2)
@@ -72,8 +77,9 @@ def genArr (a : Ast) : Nat → Nat → ArrayType → Rng → XVal × Rng
        | .string => let (n, r1) := genLen lim 9 r; let (bs, r2) := genAscii n r1; (.str bs, r2)
        | t =>
          let (n, r1) := genLen lim (if depth ≥ 3 then 1 else 3) r
-         let n := if depth ≥ 5 then 0 else n
-         let n := match lim with | some m => min n m | none => n
+         let fired := r1.hit && !r.hit
+         let n := if depth ≥ 5 && !fired then 0 else n
+         let n := match lim with | some m => if fired then n else min n m | none => n
          let (xs, r2) := genMany a fuel (depth + 1) t n r1
          (.varArr xs, r2))
 def genBasic (a : Ast) : Nat → Nat → BasicType → Rng → XVal × Rng
